@@ -13,7 +13,6 @@ import (
 	"time"
 
 	"golang.org/x/crypto/openpgp"
-	"golang.org/x/crypto/openpgp/armor"
 	"golang.org/x/crypto/openpgp/packet"
 	"pgregory.net/rapid"
 
@@ -893,9 +892,6 @@ func c44GPGToGo(g *gpgEnv, p *keyPool, cs *c44Case, bufSize int) (skip string, e
 	if cs.signer != nil && cs.hash.Size() < gpgMinHashBytes(cs.signer) {
 		return "gpg-policy:digest-too-short-for-key", nil
 	}
-	if cs.signer != nil && cs.signer.fromGo && false {
-		return "", nil
-	}
 	args := []string{"--cipher-algo", c44CipherName[cs.cipher], "--digest-algo", c44HashName[cs.hash]}
 	comp := []string{"none", "zip", "zlib", "bzip2"}[int(cs.randSrc%4)]
 	args = append(args, "--compress-algo", comp)
@@ -905,7 +901,6 @@ func c44GPGToGo(g *gpgEnv, p *keyPool, cs *c44Case, bufSize int) (skip string, e
 	if cs.signer != nil {
 		args = append(args, "-u", fprOf(cs.signer))
 	}
-	text := false
 	switch cs.op {
 	case "encrypt":
 		for _, r := range cs.rcpts {
@@ -933,14 +928,12 @@ func c44GPGToGo(g *gpgEnv, p *keyPool, cs *c44Case, bufSize int) (skip string, e
 				return "text with stray CR has no agreed canonical form", nil
 			}
 			args = append(args, "--textmode")
-			text = true
 		}
 		if strings.HasSuffix(cs.op, "-armor") {
 			args = append(args, "--armor")
 		}
 		args = append(args, "--detach-sign")
 	}
-	_ = text
 	so, se, rc, e := g.run(cs.msg, args...)
 	if e != nil {
 		return e.Error(), nil
@@ -1210,9 +1203,6 @@ func c44Directed(t *testing.T, c *ev.Collector, p *keyPool, g *gpgEnv) {
 	total := 0
 	msgs := [][]byte{[]byte("attack at dawn\n"), []byte(""), []byte("line one\r\nline two  \n-dash\n\nno newline at end")}
 	nrows := len(rows)
-	if !ev.Thorough() {
-		// quick: each shard takes its share of the matrix and one message per row
-	}
 	for i, rw := range rows {
 		if !ev.Mine(i) {
 			continue
@@ -1394,5 +1384,4 @@ func c44Directed(t *testing.T, c *ev.Collector, p *keyPool, g *gpgEnv) {
 		}
 		c.Case(true, "prompt-unlock", "prompt:unlock-private-key")
 	}
-	_ = armor.Decode
 }
